@@ -41,10 +41,10 @@ return output
 """
 
 
-def _compare(run, M, rule, q, src):
+def _compare(run, M, rule, q, src, inline=()):
     f = M.func(q)
-    _, code = vn_paths(M, f)
-    _, ref = vn_ref(src.strip(), model=M, func=f)
+    _, code = vn_paths(M, f, inline=set(inline))
+    _, ref = vn_ref(src.strip(), model=M, func=f, inline=set(inline))
     code = [o for o in code if o.status == "return"]
     ref = [o for o in ref if o.status == "return"]
     ok = len(code) == len(ref)
@@ -70,8 +70,10 @@ def check(run, M, tier):
     run.rule("F5", "util.resize centres with max(i//2 - o//2, 0) / max(o//2 - i//2, 0)")
     _compare(run, M, "F1", "sigpy.fourier._fftc", REF_FFTC.format(F="fftn"))
     _compare(run, M, "F1", "sigpy.fourier._ifftc", REF_FFTC.format(F="ifftn"))
-    _compare(run, M, "F4", "sigpy.fourier.fft", REF_FFT.format(C="_fftc", F="fftn"))
-    _compare(run, M, "F4", "sigpy.fourier.ifft", REF_FFT.format(C="_ifftc", F="ifftn"))
+    # (the centred core is expanded on both sides: whether fft reaches it through _fftc or through a merged helper is not a difference; F1 certifies the core)
+    cores = ("sigpy.fourier._fftc", "sigpy.fourier._ifftc")
+    _compare(run, M, "F4", "sigpy.fourier.fft", REF_FFT.format(C="_fftc", F="fftn"), inline=cores)
+    _compare(run, M, "F4", "sigpy.fourier.ifft", REF_FFT.format(C="_ifftc", F="ifftn"), inline=cores)
     # F2 mirror: fft/ifft and _fftc/_ifftc are instances of ONE template (REF_FFT / REF_FFTC) differing only in the primitive,
     # so F1/F4 holding for both members of a pair is the mirror property
     held = {(o[1]) for o in run.obligations if o[0] in ("F1", "F4") and o[2]}
